@@ -125,6 +125,9 @@ def _zygote_main(machine_name, cache_size, req_r, resp_w):
                 os.close(req_r)
                 os.setsid()
                 _pdeathsig()
+                dn = os.open(os.devnull, os.O_WRONLY)
+                os.dup2(dn, 1)  # the library prints on some error paths; stdout belongs to the verdict lines
+                os.close(dn)
                 faulthandler.enable()
                 faulthandler.dump_traceback_later(RUN_TIMEOUT_S - 2 if RUN_TIMEOUT_S > 4 else 2, exit=False)
                 res = execute_in_this_process(machine, script)
